@@ -1480,6 +1480,15 @@ fn classify(m: &Model, obs: &mut Obs) {
     }
 }
 
+/// pvkit's panic signature with the path made relative to the repository root wherever the
+/// sources live (`/repo` or a scratch worktree), so one root cause has one signature.
+pub fn stable_panic_sig(sig: &str) -> String {
+    match (sig.strip_prefix("panic@"), sig.find("pallas-txbuilder/src/")) {
+        (Some(_), Some(i)) => format!("panic@{}", &sig[i..]),
+        _ => sig.to_string(),
+    }
+}
+
 pub fn check_case(s: &Session, ops: &Vec<Op>, obs: &mut Obs) -> Result<(), Fail> {
     let (tx, m) = apply(ops);
     classify(&m, obs);
@@ -1490,7 +1499,7 @@ pub fn check_case(s: &Session, ops: &Vec<Op>, obs: &mut Obs) -> Result<(), Fail>
             // of conway.rs would share one signature; tell the root causes apart from the model
             // (build order: outputs, mint, collateral return).
             let zero_asset = |o: &MOut| o.assets.values().any(|q| *q == 0);
-            let unwrap_zero = p.location.starts_with("pallas-txbuilder/src/conway.rs")
+            let unwrap_zero = p.location.contains("pallas-txbuilder/src/conway.rs")
                 && p.msg == "called `Result::unwrap()` on an `Err` value: 0";
             let sig = if unwrap_zero && m.outputs.iter().any(zero_asset) {
                 "build-panic:PositiveCoin::try_from(0).unwrap() on a zero-quantity output asset".to_string()
@@ -1499,7 +1508,7 @@ pub fn check_case(s: &Session, ops: &Vec<Op>, obs: &mut Obs) -> Result<(), Fail>
             } else if unwrap_zero && m.coll_out.iter().any(zero_asset) {
                 "build-panic:PositiveCoin::try_from(0).unwrap() on a zero-quantity output asset".to_string()
             } else {
-                p.sig
+                stable_panic_sig(&p.sig)
             };
             return Err(Fail { sig, msg: format!("build_conway_raw panicked at {}: {}", p.location, p.msg) });
         }
@@ -1557,7 +1566,7 @@ pub fn run(s: &Session) {
         entries count as absent; datum/script/aux-data equality is equality of CBOR data (encoding form ignored); redeemers may be \
         encoded as list or map; script_data_hash and auxiliary_data_hash are not asserted");
     s.foreach("directed", directed(), false, |c, o| check_case(s, c, o));
-    s.forall("op-sequences", s.pick(150_000, 6_000_000), || ops(false, 28), |c, o| check_case(s, c, o));
+    s.forall("op-sequences", s.pick(400_000, 12_000_000), || ops(false, 28), |c, o| check_case(s, c, o));
     if !s.replaying() {
         for c in [
             "build:ok", "staged:duplicate-inputs", "staged:mint-nonzero", "staged:burn", "staged:output-assets",
@@ -1568,6 +1577,6 @@ pub fn run(s: &Session) {
             s.health(s.class_count(c) > 0, &format!("generator never produced class {c}"));
         }
         let ok = s.class_count("build:ok");
-        s.health(ok * 4 >= s.pick(150_000, 6_000_000), "fewer than a quarter of the generated sequences were accepted by the builder");
+        s.health(ok * 4 >= s.pick(400_000, 12_000_000), "fewer than a quarter of the generated sequences were accepted by the builder");
     }
 }
